@@ -41,6 +41,12 @@ def as_array(av):
 class NpCalls:
     def np_call(self, interp, st, name, args, kwargs, node, frame):
         """numpy.<name>(...)"""
+        if 'out' in kwargs and name not in ('add', 'subtract', 'multiply', 'divide', 'mod', 'power', 'maximum', 'minimum', 'remainder',
+                                            'floor_divide', 'true_divide', 'matmul', 'fmod', 'dot', 'maximum.accumulate') \
+                and name not in ('sqrt', 'square', 'abs', 'absolute', 'exp', 'log', 'log10', 'sin', 'cos', 'tan', 'arcsin', 'arccos',
+                                 'arctan', 'sign', 'floor', 'ceil', 'round', 'around', 'rint', 'degrees', 'radians', 'deg2rad',
+                                 'rad2deg', 'negative', 'isfinite', 'isnan', 'isinf', 'real', 'trunc', 'conj', 'nan_to_num'):
+            interp.emit('store', node, kind='out=', base=kwargs['out'], index=None, value=None, stmt=None)
         m = getattr(self, 'np_' + name.replace('.', '_'), None)
         if m is not None:
             return m(interp, st, args, kwargs, node)
